@@ -38,7 +38,7 @@ def bounds(tier):
 
 def goals(tier):
     return ["closure-reached", "origin-spanning-feature", "past-the-end-location-produced", "negative-k", "k-larger-than-n",
-            "whole-length-source", "minus-strand-join", "all-n-states-reached", "k-thousands-of-turns", "operand-unchanged-checked", "spelling-pass-closed"]
+            "whole-length-source", "minus-strand-join", "all-n-states-reached", "k-thousands-of-turns", "operand-unchanged-checked", "spelling-pass-closed", "edited-between-rotations"]
 
 
 def word(n):
@@ -239,6 +239,7 @@ def run_unit(unit, st, tier):
     if len(seen) == n or len(set(init["seq"])) < n:
         st.goal("all-n-states-reached")
     spelling_pass(st, init, rec0, n, s, nsl)
+    edit_pass(st, init, n, s, nsl)
     st.extra["max_states_one_graph"] = max(st.extra["max_states_one_graph"], len(seen))
     st.sample(dict(n=n, table_slice=[s, nsl], history=[], op=">>", k=1 % max(n, 1), seq=init["seq"], features=len(init["feats"])))
 
@@ -293,11 +294,52 @@ def spelling_pass(st, init, rec0, n, s, nsl):
         st.goal("spelling-pass-closed")
 
 
+def edited(rec):
+    """what a user may do to a record between two rotations: add a feature, rename it, annotate it"""
+    rec.features.append(gen.mk_feature([(0, min(2, len(rec.seq)), 1)], type="misc_feature", fid="late9"))
+    rec.id = "edited"
+    rec.annotations["note-added-later"] = "x"
+    return rec
+
+
+def edit_pass(st, init, n, s, nsl):
+    """A record that is itself the result of a rotation is edited and rotated again: the edit must be carried along (the second
+    rotation acts on the record as it is now, not on what it was made from)."""
+    if n < 3:
+        return
+    for a in sorted({0, 1, n // 2, n - 1}):
+        for op in (">>", "<<"):
+            for k in (1, 2, n - 1, n + 1, -1):
+                scn = dict(n=n, table_slice=[s, nsl], history=[[">>", a]], op=op, k=k, edit=True)
+                try:
+                    rec = edited(build(init) >> a) if a else edited(build(init))
+                    out = apply(rec, op, k)
+                except Exception as e:
+                    st.violation("rotate", "raises-" + type(e).__name__, scn, "a record", "{}: {}".format(type(e).__name__, e))
+                    continue
+                d = k if op == ">>" else -k
+                exp = model(init, a + d)
+                late = gen.mk_feature([(0, min(2, n), 1)], type="misc_feature", fid="late9")
+                exp["feats"].append([late.type, late.id, json.dumps(snapshot._plain(dict(late.qualifiers)), sort_keys=True),
+                                     canon_den(rm.rotate_denoted(rm.denoted([(0, min(2, n), 1)], n), n, d % n), n)])
+                exp["feats"].sort(key=lambda x: (x[1], x[0]))
+                exp["id"] = "edited"
+                exp["annotations"] = snapshot._plain(dict({"topology": "circular", "organism": "x", "keywords": ["a", "b"]}, **{"note-added-later": "x"}))
+                compare(st, scn, observe(out, n), exp)
+                st.traces += 1
+                st.transitions += 1
+                st.extra["edit_pass_edges"] += 1
+    st.goal("edited-between-rotations")
+
+
 def replay(scn, sub, st):
     n = scn["n"]
     s, nsl = scn["table_slice"]
     if scn["op"] == "closure":
         run_unit((n, s, nsl), st, "quick")     # the whole search of this graph is the scenario
+        return
+    if scn.get("edit"):
+        edit_pass(st, initial(n, s, nsl), n, s, nsl)
         return
     init = initial(n, s, nsl)
     rec = build(init)
